@@ -161,6 +161,19 @@ def generate(prop, seed, tier):
         if kind == "fit_bad":
             op["source"] = "rejected"  # F2: data the estimator rejects
         scen["ops"].append(op)
+    # bystanders: other live distribution objects of the same (or a sibling) class with a different
+    # fixed specification, constructed / fitted at seeded points of the history (state shared
+    # between instances shows only then)
+    if S.chance(0.5):
+        for b in range(S.int(1, 2)):
+            fam2 = fam
+            if fam.startswith("Scipy") and S.chance(0.4):
+                fam2 = "ScipyGumbel" if fam == "ScipyGamma" else "ScipyGamma"
+            names2, ranges2, _ = FAM[fam2]
+            subs = [x for x in proper_subsets(names2) if x != fixed_names or fam2 != fam] or proper_subsets(names2)
+            sub2 = S.pick(subs)
+            other = {"op": "other", "family": fam2, "fixed": {p: core.r6(S.uni(*ranges2[p])) for p in sub2}, "fit": S.chance(0.5), "dseed": S.sub("o", b), "n": 120}
+            scen["ops"].insert(S.int(0, len(scen["ops"])), other)
     if not any(o["op"] == "fit" and o["source"] != "rejected" for o in scen["ops"]):
         scen["ops"].append({"op": "fit", "n": 400, "dseed": S.sub("d", 99), "method": "mle", "weights": None, "source": "family"})
     scen["ops"].append({"op": "eval", "pseed": S.sub("e", 99), "n": 5})
@@ -260,19 +273,45 @@ def check_eval(run, scen, dist, op, step):
             return
 
 
+def _do_other(run, scen, op, others):
+    """construct (and maybe fit) a bystander object; it must itself honour its fixed values"""
+    cls = fam_class(op["family"])
+    obj = cls(**{"f_" + p: v for p, v in op["fixed"].items()})
+    others.append((op, obj))
+    run.count("probe:bystander-object-alive")
+    if op["fit"]:
+        truth = {p: (op["fixed"][p] if p in op["fixed"] else sum(FAM[op["family"]][1][p]) / 2) for p in FAM[op["family"]][0]}
+        try:
+            obj.fit(draw(op["family"], truth, op["n"], op["dseed"]))
+        except Exception:  # noqa: BLE001
+            return
+    for o2, ob in others:
+        for p, v in o2["fixed"].items():
+            if not _rel_eq(ob.parameters[p], v):
+                run.violate("I1-fixed-value-retained", f"{o2['family']}/{p}/bystander-object", {"param": p, "declared": v, "current": float(ob.parameters[p])})
+                return
+
+
 def execute(prop, scen):
     if scen.get("conditional"):
         return execute_conditional(prop, scen)
     run = core.Run(prop, scen)
     fam = scen["family"]
-    run.signature = core.digest([fam, sorted(scen["fixed"]), [(o["op"], o.get("method"), o.get("source")) for o in scen["ops"]], False])
+    run.signature = core.digest([fam, sorted(scen["fixed"]), [(o["op"], o.get("method"), o.get("source"), o.get("family")) for o in scen["ops"]], False])
     with seams.recorded_warnings():
         dist = _ctor(scen)
         run.event("construct", [fam, scen["fixed"], scen["ctor_plain"]], dist.parameters)
         if not check_state(run, scen, dist, "construction", 0):
             return run
         failed_before = False
+        others = []
         for si, op in enumerate(scen["ops"], start=1):
+            if op["op"] == "other":
+                _do_other(run, scen, op, others)
+                run.event("other", [op["family"], op["fixed"], op["fit"]], None)
+                if run.violations or not check_state(run, scen, dist, "after-bystander", si):
+                    return run
+                continue
             if op["op"] == "eval":
                 check_eval(run, scen, dist, op, si)
                 run.event("eval", op, None)
@@ -338,7 +377,7 @@ def execute_conditional(prop, scen):
     fam = scen["family"]
     names = FAM[fam][0]
     free = [p for p in names if p not in scen["fixed"]]
-    run.signature = core.digest([fam, sorted(scen["fixed"]), [(o["op"], o.get("method"), o.get("source")) for o in scen["ops"]], True])
+    run.signature = core.digest([fam, sorted(scen["fixed"]), [(o["op"], o.get("method"), o.get("source"), o.get("family")) for o in scen["ops"]], True])
     slope = scen["cond"]["slope"]
     k = scen["cond"]["n_intervals"]
     centres = [1.0 + 1.5 * i for i in range(k)]
@@ -352,7 +391,14 @@ def execute_conditional(prop, scen):
                 run.violate("I1-fixed-value-retained", f"{fam}/{p}/conditional-construction", {"param": p, "declared": v, "fixed_parameters": dict(cond.fixed_parameters)})
                 return run
         fitted = False
+        others = []
         for si, op in enumerate(scen["ops"], start=1):
+            if op["op"] == "other":
+                _do_other(run, scen, op, others)
+                run.event("other", [op["family"], op["fixed"], op["fit"]], None)
+                if run.violations:
+                    return run
+                continue
             if op["op"] == "eval":
                 if not fitted:
                     continue
@@ -438,7 +484,7 @@ def shrink_candidates(prop, scen):
         c["conditional"] = False
         yield c
     for i, o in enumerate(ops):
-        if o["op"] == "fit" and o["n"] > 120:
+        if o["op"] == "fit" and o.get("n", 0) > 120:
             c = copy.deepcopy(scen)
             c["ops"][i]["n"] = 120
             yield c
@@ -463,5 +509,5 @@ def describe(prop):
             "a fit that raises TypeError/AttributeError/KeyError/NotImplementedError/AssertionError for a supported (subset, method) pair is a violation; numerical estimator failures are inconclusive",
             "least squares is 'supported' only for the exponentiated Weibull with delta fixed (the class raises NotImplementedError otherwise by design)",
         ],
-        "probes": ["clean-fit-after-failed-fit", "rejected-data-accepted"],
+        "probes": ["clean-fit-after-failed-fit", "rejected-data-accepted", "bystander-object-alive"],
     }
